@@ -214,7 +214,7 @@ func (e *Enc) mapKey(k Value) (Term, bool) {
 
 // mapSetKey: the map's content changes so that key is present (or absent); every other key is
 // as before.
-func (fv *FuncVerifier) mapSetKey(st *State, m ssa.Value, key Term, present bool) {
+func (fv *FuncVerifier) mapSetKey(st *State, m ssa.Value, key Term, present bool, val *Value) {
 	mv := st.get(m)
 	a := st.heapArr("M_content", SArr)
 	ov := Select(a, mv.L[0])
@@ -227,6 +227,26 @@ func (fv *FuncVerifier) mapSetKey(st *State, m ssa.Value, key Term, present bool
 	}
 	j := Term{"j!m", SInt}
 	st.assume(Term{"(forall ((j!m Int)) (! " + Implies(Not(Eq(j, key)), Eq(st.mhas(nv, j), st.mhas(ov, j))).S + " :pattern (" + st.mhas(nv, j).S + ")))", SBool})
+	// the stored value (its integer-sorted words: references, dynamic types, numbers): the
+	// entry written holds the value written, every other entry holds what it held
+	if mt, ok := mv.Typ.Underlying().(*types.Map); ok {
+		for i, l := range flatten(mt.Elem()) {
+			if l.Sort != SInt {
+				continue
+			}
+			if val != nil && i < len(val.L) && val.L[i].Sort == SInt && val.Place == nil {
+				st.assume(Eq(st.mval(nv, key, i), val.L[i]))
+			}
+			st.assume(Term{"(forall ((j!m Int)) (! " + Implies(Not(Eq(j, key)), Eq(st.mval(nv, j, i), st.mval(ov, j, i))).S + " :pattern (" + st.mval(nv, j, i).S + ")))", SBool})
+		}
+	}
+}
+
+// mval(version, epoch, key, word): word number `word` of the value stored under the key (only
+// integer-sorted words are modelled); an absent key reads as the zero value (lookup).
+func (s *State) mval(ver, key Term, word int) Term {
+	s.enc.declareFun("mval", []string{"Int", "Int", "Int", "Int"}, "Int")
+	return app(SInt, "mval", ver, s.heapArr("GH_mepoch", SInt), key, I(int64(word)))
 }
 
 func (fv *FuncVerifier) checkLocksAtExit(st *State, retIdx int, pos token.Pos) {}
